@@ -2,10 +2,15 @@
 
 package vrt
 
+import "unsafe"
+
 const RaceBuild = false
 
 func raceDisable() {}
 func raceEnable()  {}
+
+func raceAcquire(unsafe.Pointer) {}
+func raceRelease(unsafe.Pointer) {}
 
 func spawn(fn func()) { go fn() }
 func releasePool()    {}
